@@ -17,6 +17,8 @@ def mk_stacks(rng, ns, dll='j1939-21', lat0=True):
         own = []
         for k in range(rng.choice([1, 1, 2])):
             a = rng.choice([x for x in list(range(0, 254)) if x not in used])
+            if 0 not in used and rng.random() < 0.12:
+                a = 0                          # address 0 is an address like any other (also for an address-bound listener)
             used.add(a)
             own.append(a)
             if rng.random() < 0.5:
